@@ -256,12 +256,9 @@ def gen_units():
             raise TranslateError(f"{const} not recognised")
         out.append(f"def {lean} : {enum} := .{lname(m.group(1))}")
     out.append("")
-    # shape guards of the three constructors (the Lean model in Model/Units.lean mirrors these lines)
+    # shape guard of `create_energy` (the Lean model in Model/Units.lean mirrors these lines); the bodies of
+    # `create_time` / `create_speed` are translated whole by tools/gen_fns.py and tied by C09.gen_create_*_eq
     guards = [
-        r"let d = distance_unit\.convert\(distance, &BASE_DISTANCE_UNIT\);\s*let s = speed_unit\.convert\(speed, &BASE_SPEED_UNIT\);\s*if s <= Speed::ZERO \|\| d <= Distance::ZERO \{",
-        r"let time = \(d, s\)\.into\(\);\s*let result = BASE_TIME_UNIT\.convert\(&time, time_unit\);",
-        r"let d = distance_unit\.convert\(distance, &BASE_DISTANCE_UNIT\);\s*let t = time_unit\.convert\(time, &BASE_TIME_UNIT\);\s*if t <= Time::ZERO \{",
-        r"let speed = \(d, t\)\.into\(\);\s*let result = BASE_SPEED_UNIT\.convert\(&speed, speed_unit\);",
         r"let rate_distance_unit = energy_rate_unit\.associated_distance_unit\(\);\s*let energy_unit = energy_rate_unit\.associated_energy_unit\(\);\s*let calc_distance = distance_unit\.convert\(distance, &rate_distance_unit\);\s*let energy = \(\*energy_rate, calc_distance\)\.into\(\);",
     ]
     for g in guards:
@@ -502,7 +499,7 @@ def main():
     print(f"translator ok (Units.lean {'rewritten' if ch1 else 'unchanged'}, Consts.lean {'rewritten' if ch2 else 'unchanged'}, "
           f"Decisions.lean {'rewritten' if ch3 else 'unchanged'}: {len(SITES) - len(unknown_sites)} of {len(SITES)} decision sites recognised"
           + (f"; NOT recognised: {', '.join(unknown_sites)}" if unknown_sites else "") + ")")
-    # function bodies (Gen/Fns.lean): a function that is not recognised is skipped, never a failure of the run
+    # function bodies (Gen/Fns<prop>.lean): a function that is not recognised is skipped, never a failure of the run
     gen_fns.main(REPO, write_if_changed)
     return 0
 
